@@ -86,4 +86,8 @@ VARIANTS = [
          old="            next_ix_sl = ix_sl | frozenset([ix])", new="            next_ix_sl = ix_sl.union((ix,))"),
     dict(name="seed C07_9: per-contraction flops divided with /", kind="break", file="cotengra/slicer.py",
          old="            new_flops = old_flops // d", new="            new_flops = old_flops / d", expect=("C07-INTCOST", "remove")),
+    dict(name="seed C07_10: size multiset maintained only when asked", kind="break",
+         edits=[("cotengra/slicer.py", "    def remove(self, ix, inplace=False):", "    def remove(self, ix, inplace=False, track_size=True):"),
+                ("cotengra/slicer.py", "                cost._sizes.discard(old_size)\n                cost._sizes.add(new_size)\n", "                if track_size:\n                    cost._sizes.discard(old_size)\n                    cost._sizes.add(new_size)\n")],
+         expect=("C07-MODEL", "always-maintained")),
 ]
